@@ -257,6 +257,11 @@ def compare(ctx, rule, instance, where, code, ref_poly, ref_dims=None, facts=Non
             if not any(o.rule == rule and o.instance == inst for o in ctx.obs):
                 ctx.violation(rule, inst, '%s:%d %s' % (f.module, f.line, where.split(' ', 1)[-1]), f.msg, 'zero-times-inf:' + f.msg[:60])
             return False
+        if f.kind == 'library-limit':
+            inst = instance + ' (library limit)'
+            if not any(o.rule == rule and o.instance == inst for o in ctx.obs):
+                ctx.violation(rule, inst, '%s:%d %s' % (f.module, f.line, where.split(' ', 1)[-1]), f.msg, 'library-limit:' + f.msg[:60])
+            return False
         if f.kind == 'label-clash':
             ctx.violation('AXIS', instance + ' (axis roles)', '%s:%d %s' % (f.module, f.line, where.split(' ', 1)[-1]),
                           'arrays indexed by different axes are combined: %s' % f.msg, 'label-clash:' + f.msg[:80])
@@ -327,7 +332,8 @@ def compare(ctx, rule, instance, where, code, ref_poly, ref_dims=None, facts=Non
         return False
     allowed_s = set(vocab or ()) | {'INF', 'PI'}
     allowed_f = BASE_FNS | set(fns or ())
-    foreign = {s for s in syms if s not in allowed_s and not s.startswith('unit:') and not s.startswith('idx:')} | {f for f in fnames if f not in allowed_f}
+    # (norm_ord<k>: np.linalg.norm with an explicit order other than 2 - another norm, a known function)
+    foreign = {s for s in syms if s not in allowed_s and not s.startswith('unit:') and not s.startswith('idx:')} | {f for f in fnames if f not in allowed_f and not f.startswith('norm_ord')}
     if foreign:
         ctx.undecided(rule, instance, where, 'normal forms differ but the remainder contains unrecognised atoms %s' % sorted(foreign))
     else:
